@@ -85,7 +85,14 @@ func TestCheck(t *testing.T) {
 		"several lengths.  Every probe is sent to a listener started anew (first message it ever sees) and, R times per warm-up " +
 		"history (3 histories: sequential same-shape, concurrent with records and long names under GOMAXPROCS=2, mixed under the " +
 		"default GOMAXPROCS), to a listener warmed with well-formed other traffic written in a reserved alphabet, each probe " +
-		"directly preceded or followed by one more message of other traffic.  Overlap bursts: many clients' messages back to " +
+		"directly preceded or followed by one more message of other traffic.  Seven receive paths: udp, udp-btd (plain-DNS UDP " +
+		"received through a real bindtodevice.Manager interface listener on lo and its pooled packet bodies), tcp, dot, doq, " +
+		"doh-post, doh-get.  The probe list also holds complete EDNS queries longer than the base query and than the other " +
+		"traffic (padding 0..380 bytes; reflected OPT contents are part of the reference), so that a receive buffer shrunk by " +
+		"an earlier, shorter message shows (bucket longer_after_shorter_answered).  Fault history: on a server with a TCP " +
+		"pipeline limit of 1 and a 150 ms request context, 12 TCP clients occupy their slot with a blocked handler and send one " +
+		"more short message that is dropped when its context expires while waiting for a slot; before and after that, bursts of " +
+		"32 EDNS queries over UDP (handler holds each 20 ms) are judged on their own bytes.  Overlap bursts: many clients' messages back to " +
 		"back (UDP datagrams from many sockets, pipelined TCP/DoT frames, concurrent DoQ streams and DoH requests) with a briefly " +
 		"blocking handler.  Upstream side: UpstreamPlain (udp, tcp) against a scripted stub: normal replies with recognisable " +
 		"records, then replies cut at every offset >= 12, with inflated ANCOUNT/NSCOUNT/ARCOUNT, and TCP prefix/body mismatches, " +
@@ -95,6 +102,7 @@ func TestCheck(t *testing.T) {
 	r.Assume("the handler given to the servers reflects every record of the decoded request into its response, so the response reveals the server's decoding")
 	r.Assume("an observation 'no answer' is never a verdict by itself: a promised answer that is missing is re-requested (3 attempts, long waits) and answered-late cases are counted as ambiguous")
 	r.Assume("sync.Pool is per-P and drops a quarter of the Puts under -race: whether a probe lands in a dirty buffer is not observable from outside; the own-bytes oracle does not depend on it")
+	r.Assume("the bind-to-device UDP path (udp-btd) needs SO_BINDTODEVICE on 'lo' (CAP_NET_RAW); where the interface listener cannot be started the path is reported INCONCLUSIVE, never silently skipped")
 	r.Assume("DNSCrypt is not covered: its receive buffers belong to the dnscrypt library, the repository code has no pooled read buffer on that path")
 
 	defProcs := runtime.GOMAXPROCS(0)
@@ -111,6 +119,8 @@ func TestCheck(t *testing.T) {
 		samples:    map[string]bool{},
 		viols:      map[string]*pendingViolation{},
 		misses:     map[string]int{},
+
+		unavailable: map[string]string{},
 	}
 	defer e.flushViolations()
 
@@ -158,6 +168,9 @@ func TestCheck(t *testing.T) {
 		e.overlapPhase(si, "gomaxprocs=2")
 		mark("overlap-pinned-procs", ts)
 		ts = time.Now()
+		e.faultPhase(si, "gomaxprocs=2")
+		mark("fault-history-pinned-procs", ts)
+		ts = time.Now()
 		e.upstreamPhase(si, "gomaxprocs=2", reps)
 		mark("upstream-pinned-procs", ts)
 
@@ -176,11 +189,23 @@ func TestCheck(t *testing.T) {
 		e.overlapPhase(si, "gomaxprocs=default")
 		mark("overlap-default-procs", ts)
 		ts = time.Now()
+		e.faultPhase(si, "gomaxprocs=default")
+		mark("fault-history-default-procs", ts)
+		ts = time.Now()
 		e.upstreamPhase(si, "gomaxprocs=default", reps)
 		mark("upstream-default-procs", ts)
 	}
 
 	r.Bucket("handler_invocations", handlerCalls.Load())
+
+	for _, p := range allPaths {
+		e.mu.Lock()
+		why := e.unavailable[p.name]
+		e.mu.Unlock()
+		if why != "" {
+			r.Inconclusive("path " + p.name + " could not be exercised in this environment: " + why)
+		}
+	}
 
 	for _, p := range append([]string{"upstream-udp", "upstream-tcp"}, pathNames()...) {
 		if e.degraded(p) {
@@ -206,6 +231,13 @@ func TestCheck(t *testing.T) {
 	for _, p := range []string{"udp", "tcp", "dot", "doq", "doh-post"} {
 		r.Require("overlap_responses_judged:"+p, int64(r.N(200, 2000)))
 	}
+	r.Require("judged_family:longer-edns", int64(500*nShapes))
+	for _, p := range allPaths {
+		r.Require("longer_after_shorter_answered:"+p.name, int64(100*nShapes))
+	}
+	r.Require("fault:tcp_message_dropped_waiting_for_pipeline_slot", int64(12*nShapes))
+	r.Require("fault:udp_judged:before", int64(80*nShapes))
+	r.Require("fault:udp_judged:after", int64(250*nShapes))
 	r.Require("judged_family:segmented", int64(100*nShapes))
 	r.Require("judged_family:segmented-rest-never", int64(60*nShapes))
 	r.Require("judged_family:prefix-larger", int64(50*nShapes))
@@ -246,9 +278,13 @@ func parallel(runs []*pathRun, f func(pr *pathRun)) {
 func (e *env) freshPhase(pr *pathRun) {
 	pr.fresh = make([]freshRec, len(pr.probes))
 	for i, p := range pr.probes {
-		b, err := tbench.Start(benchConfig(pr.p.server))
+		if e.pathUnavailable(pr.p) {
+			return
+		}
+
+		b, err := startInstance(pr.p)
 		if err != nil {
-			e.infraFailure("bench-start", err.Error())
+			e.startFailure(pr.p, err)
 
 			continue
 		}
@@ -256,7 +292,7 @@ func (e *env) freshPhase(pr *pathRun) {
 		d, err := newDriver(e, pr.p, b)
 		if err != nil {
 			e.infraFailure("driver", err.Error())
-			_ = b.Close()
+			b.close()
 
 			continue
 		}
@@ -284,7 +320,7 @@ func (e *env) freshPhase(pr *pathRun) {
 		}
 
 		d.close()
-		_ = b.Close()
+		b.close()
 	}
 }
 
@@ -294,13 +330,17 @@ func (e *env) freshPhase(pr *pathRun) {
 
 func (e *env) runHistory(pr *pathRun, h history, reps int, rng *rand.Rand) {
 	p := pr.p
-	b, err := tbench.Start(benchConfig(p.server))
+	if e.pathUnavailable(p) {
+		return
+	}
+
+	b, err := startInstance(p)
 	if err != nil {
-		e.infraFailure("bench-start", err.Error())
+		e.startFailure(p, err)
 
 		return
 	}
-	defer func() { _ = b.Close() }()
+	defer b.close()
 
 	d, err := newDriver(e, p, b)
 	if err != nil {
@@ -336,6 +376,9 @@ func (e *env) runHistory(pr *pathRun, h history, reps int, rng *rand.Rand) {
 	}
 	wg.Wait()
 
+	// minAnswered is the length of the shortest message this instance has
+	// answered so far (other traffic is never shorter than the base query).
+	minAnswered := len(e.s.base(1))
 	cnt := 0
 	for rep := 0; rep < reps; rep++ {
 		order := rng.Perm(len(pr.probes))
@@ -367,6 +410,19 @@ func (e *env) runHistory(pr *pathRun, h history, reps int, rng *rand.Rand) {
 
 			if o.infra() {
 				continue
+			}
+
+			if len(px.frames) == 1 {
+				// A well-formed message that is longer than one the listener
+				// has answered before: the case a shrunken buffer gets wrong.
+				n := len(px.frames[0].sent)
+				if px.frames[0].exp.kind == expRef && n > minAnswered {
+					e.r.Bucket("longer_after_shorter_answered:"+p.name, 1)
+				}
+
+				if len(o.answers) > 0 {
+					minAnswered = min(minAnswered, n)
+				}
 			}
 
 			class, bad := e.evaluate(p, pp, &bt, px, &o, h.name, meta)
@@ -407,7 +463,7 @@ func (e *env) judgeOther(path, role string, w, raw []byte) {
 		wit["response"] = resp.String()
 	}
 
-	e.violation(keyFor(path, ex, ps), "a well-formed message sent between probes was not answered from its own bytes: "+ps[0].what, wit)
+	e.violation(keyOf(path, ex, ps, w, raw, wit), "a well-formed message sent between probes was not answered from its own bytes: "+ps[0].what, wit)
 }
 
 // ---------------------------------------------------------------------------
@@ -561,7 +617,7 @@ func (e *env) evaluate(p *pathDef, pp *probe, bt *built, px *pexp, o *observatio
 			wit["response"] = resp.String()
 		}
 
-		e.violation(keyFor(p.name, f.exp, ps), ps[0].what, wit)
+		e.violation(keyOf(p.name, f.exp, ps, f.sent, raw, wit), ps[0].what, wit)
 	}
 
 	switch {
@@ -608,7 +664,7 @@ func (e *env) lateJudge(p *pathDef) func(ls *lateSock, raw []byte) {
 			wit["response"] = resp.String()
 		}
 
-		e.violation(keyFor(p.name, f.exp, ps), ps[0].what, wit)
+		e.violation(keyOf(p.name, f.exp, ps, f.sent, raw, wit), ps[0].what, wit)
 	}
 }
 
